@@ -41,6 +41,8 @@ impl AuthenticationAdapter for MojangAdapter {
         let url = format!(
             "https://sessionserver.mojang.com/session/minecraft/hasJoined?username={username}&serverId={hash}"
         );
+        #[cfg(passage_verif)]
+        let url = crate::verif_session_server(url);
         let profile = HTTP_CLIENT
             .get(&url)
             .send()
